@@ -53,24 +53,36 @@ DiffLog(rec) ==
 Eff(rec) == SelectSeq([i \in DOMAIN rec.history |-> [idx |-> i, c |-> rec.history[i]]], LAMBDA x : x.c.ops # <<>>)
 
 NoInfo == [revs |-> {}, authors |-> {}, first |-> ""]
-\* state: [live : path -> info, gone : paths deleted at least once]
+\* state: live : path -> [revs, authors, first (since the path's latest creation), arevs, aauthors, afirst (over every
+\*         life of that path name)];  past : deleted path -> what its name had accumulated;  gone : paths deleted at
+\*         least once;  odd : paths that were the TARGET of a rename while a file of that name had been deleted before
 ApplyOp(st, op, i, c) ==
   LET touch(info) == [revs |-> info.revs \cup {i}, authors |-> info.authors \cup {c.author},
-                      first |-> IF info.first = "" THEN c.date ELSE info.first]
+                      first |-> IF info.first = "" THEN c.date ELSE info.first,
+                      arevs |-> info.arevs \cup {i}, aauthors |-> info.aauthors \cup {c.author},
+                      afirst |-> IF info.afirst = "" THEN c.date ELSE info.afirst]
       live == st.live
+      base(p) == IF p \in DOMAIN st.past THEN st.past[p] ELSE NoInfo
+      fresh(p) == [revs |-> {}, authors |-> {}, first |-> "", arevs |-> base(p).revs, aauthors |-> base(p).authors, afirst |-> base(p).first]
   IN  CASE op.op \in {"add", "addbin"} ->
-             [st EXCEPT !.live = [p \in DOMAIN live \cup {op.path} |-> IF p = op.path THEN touch(NoInfo) ELSE live[p]]]
+             [st EXCEPT !.live = [p \in DOMAIN live \cup {op.path} |-> IF p = op.path THEN touch(fresh(p)) ELSE live[p]]]
         [] op.op \in {"modify", "chmod"} ->
              [st EXCEPT !.live = [p \in DOMAIN live |-> IF p = op.path THEN touch(live[p]) ELSE live[p]]]
         [] op.op = "delete" ->
-             [live |-> [p \in DOMAIN live \ {op.path} |-> live[p]], gone |-> st.gone \cup {op.path}]
+             [st EXCEPT !.live = [p \in DOMAIN live \ {op.path} |-> live[p]], !.gone = st.gone \cup {op.path},
+                        !.past = IF op.path \in DOMAIN live
+                                 THEN [p \in DOMAIN st.past \cup {op.path} |->
+                                         IF p = op.path THEN [revs |-> live[p].arevs, authors |-> live[p].aauthors, first |-> live[p].afirst]
+                                         ELSE st.past[p]]
+                                 ELSE st.past]
         [] op.op = "rename" ->
-             [st EXCEPT !.live = [p \in (DOMAIN live \ {op.path}) \cup {op.to} |-> IF p = op.to THEN touch(live[op.path]) ELSE live[p]]]
+             [st EXCEPT !.live = [p \in (DOMAIN live \ {op.path}) \cup {op.to} |-> IF p = op.to THEN touch(live[op.path]) ELSE live[p]],
+                        !.odd = IF op.to \in st.gone THEN st.odd \cup {op.to} ELSE st.odd]
 
 RECURSIVE ApplyOps(_, _, _, _, _), ApplyCommits(_, _, _)
 ApplyOps(st, ops, k, i, c) == IF k > Len(ops) THEN st ELSE ApplyOps(ApplyOp(st, ops[k], i, c), ops, k + 1, i, c)
 ApplyCommits(st, eff, k) == IF k > Len(eff) THEN st ELSE ApplyCommits(ApplyOps(st, eff[k].c.ops, 1, eff[k].idx, eff[k].c), eff, k + 1)
-Final(rec) == ApplyCommits([live |-> <<>>, gone |-> {}], Eff(rec), 1)
+Final(rec) == ApplyCommits([live |-> <<>>, gone |-> {}, past |-> <<>>, odd |-> {}], Eff(rec), 1)
 
 HasRename(rec) == \E i \in DOMAIN rec.history : \E k \in DOMAIN rec.history[i].ops : rec.history[i].ops[k].op = "rename"
 
@@ -80,14 +92,15 @@ DiffSummaries(rec) ==
   LET o == rec.observed
       fin == Final(rec)
       live == fin.live
-      \* Free_C15_Recreated: a path that was deleted and later created again may count from either creation
-      judged == {p \in DOMAIN live : p \notin fin.gone}
-      expTeam == {[name |-> p, authors |-> Cardinality(live[p].authors), revs |-> Cardinality(live[p].revs)] : p \in judged}
+      \* Free_C15_Recreated: a path that was deleted and later created again exists, so it is reported; "the commits
+      \* that touched it" may be counted since its latest creation (what the fold does) or over every life of the name.
+      \* Only the target of a rename onto a once-deleted name is not judged (odd).
+      judged == {p \in DOMAIN live : p \notin fin.odd}
+      teamOK(t, p) == t.name = p /\ ((t.authors = Cardinality(live[p].authors) /\ t.revs = Cardinality(live[p].revs))
+                                     \/ (t.authors = Cardinality(live[p].aauthors) /\ t.revs = Cardinality(live[p].arevs)))
       obsTeam == {o.team[i] : i \in DOMAIN o.team}
-      obsTeamJ == {t \in obsTeam : t.name \notin fin.gone}
-      expAge == {[name |-> p, date |-> live[p].first] : p \in judged}
+      ageOK(a, p) == a.name = p /\ a.date \in {live[p].first, live[p].afirst}
       obsAge == {[name |-> o.age[i].name, date |-> o.age[i].date] : i \in DOMAIN o.age}
-      obsAgeJ == {a \in obsAge : a.name \notin fin.gone}
       eff == Eff(rec)
       facts == SelectSeq(rec.facts, LAMBDA c : ~c.merge /\ c.changes # <<>>)
       auths == {facts[i].author : i \in DOMAIN facts}
@@ -110,11 +123,13 @@ DiffSummaries(rec) ==
       obsLog == {o.changelog[i] : i \in DOMAIN o.changelog}
   IN  IF o.panic THEN {Item("C15", "panic", "", {})}
       ELSE
-        {Item("C15", "team-missing-or-wrong", t.name, {}) : t \in expTeam \ obsTeam} \cup
-        {Item("C15", "team-unexpected", t.name, {}) : t \in obsTeamJ \ expTeam} \cup
+        {Item("C15", "team-missing-or-wrong", p, {}) : p \in {p \in judged : ~\E t \in obsTeam : teamOK(t, p)}} \cup
+        {Item("C15", "team-unexpected", t.name, {}) : t \in {t \in obsTeam : t.name \notin fin.odd /\ ~\E p \in judged : teamOK(t, p)}} \cup
+        (IF Len(o.team) # Cardinality({o.team[i].name : i \in DOMAIN o.team}) THEN {Item("C15", "team-duplicated", "", {})} ELSE {}) \cup
         (IF NonIncreasing(o.team, LAMBDA t : t.revs) THEN {} ELSE {Item("C15", "team-not-sorted", "", {})}) \cup
-        {Item("C15", "age-missing-or-wrong", a.name, {}) : a \in expAge \ obsAge} \cup
-        {Item("C15", "age-unexpected", a.name, {}) : a \in obsAgeJ \ expAge} \cup
+        {Item("C15", "age-missing-or-wrong", p, {}) : p \in {p \in judged : ~\E a \in obsAge : ageOK(a, p)}} \cup
+        {Item("C15", "age-unexpected", a.name, {}) : a \in {a \in obsAge : a.name \notin fin.odd /\ ~\E p \in judged : ageOK(a, p)}} \cup
+        (IF Len(o.age) # Cardinality({o.age[i].name : i \in DOMAIN o.age}) THEN {Item("C15", "age-duplicated", "", {})} ELSE {}) \cup
         {Item("C15", "top-missing-or-wrong", t.name, {}) : t \in expTop \ obsTop} \cup
         {Item("C15", "top-unexpected", t.name, {}) : t \in obsTop \ expTop} \cup
         (IF NonIncreasing(o.top, LAMBDA t : t.commits) THEN {} ELSE {Item("C15", "top-not-sorted", "", {})}) \cup
